@@ -215,7 +215,7 @@ func regenInstances(repoDir, tier string, sink *report.Sink) ([]*gen.Instance, e
 	}
 	if tier == "thorough" {
 		corpora = append(corpora,
-			regen.Corpus{Name: "corpus-autoinstr", Src: filepath.Join(vd, "corpus"), Module: "example.com/corpus", Cmds: [][]string{{".", "-auto-instrument", "./..."}}, VRules: false},
+			regen.Corpus{Name: "corpus-autoinstr", Src: filepath.Join(vd, "corpus"), Module: "example.com/corpus", Cmds: [][]string{{".", "-auto-instrument", "./..."}}, VRules: true},
 			regen.Corpus{Name: "repo-tests", Src: filepath.Join(repoDir, "internal", "tests"), Cmds: [][]string{{".", "./..."}, {"modifier", "-genmode", "modifier", "./..."}}, VRules: false},
 			regen.Corpus{Name: "repo-examples", Src: filepath.Join(repoDir, "examples"), Cmds: [][]string{{".", "-genmode", "source-map", "./..."}}, VRules: false},
 		)
